@@ -50,7 +50,6 @@ E     == Trace[l]
 Has(r, f)    == f \in DOMAIN r
 Get(r, f, d) == IF f \in DOMAIN r THEN r[f] ELSE d
 SetOf(s)     == {s[i] : i \in DOMAIN s}
-Max(S)       == CHOOSE x \in S : \A y \in S : y <= x
 
 V(pred, sig, w) == [pred |-> pred, sig |-> sig, w |-> ToString(w), line |-> l, ev |-> E.ev,
                     s |-> Get(E, "s", -1), r |-> Get(E, "r", -1)]
